@@ -333,6 +333,72 @@ func c18Balancer(ctx *Ctx, r *hv.Rng) int {
 	return n
 }
 
+// ---- family F: one statement, prepared once, re-prepared by the proxy on connections of every protocol version at the
+// same time.  Sessions are per protocol version, the prepared cache is one per process: the cached PREPARE frame is shared
+// by backend reader goroutines of all of them. ----
+func c18CrossVersion(ctx *Ctx, r *hv.Rng) int {
+	prefix, port := px.Alloc()
+	be := fb.New(prefix, port)
+	for h := 1; h <= 2; h++ {
+		if err := be.StartHost(h); err != nil {
+			panic(err)
+		}
+	}
+	be.SetTopology(1, 2)
+	defer be.Shutdown()
+	cfg := px.DefaultConfig(be)
+	cfg.MaxVersion = primitive.ProtocolVersionDse2
+	cfg.NumConns = 2
+	env, err := px.StartProxy(be, cfg)
+	if err != nil {
+		panic(err)
+	}
+	defer env.Close()
+	q := "SELECT v FROM t WHERE j = ?"
+	vers := []primitive.ProtocolVersion{4, 3, 5, 65, 66, 3, 4}
+	var cls []*px.Client
+	for _, v := range vers {
+		cl, err := px.Dial(env.Addr)
+		if err != nil {
+			panic(err)
+		}
+		defer cl.Close()
+		if cl.Startup(v, "") != nil {
+			panic("c18: startup")
+		}
+		cls = append(cls, cl)
+	}
+	// prepared once, by the first client (v4)
+	_ = cls[0].Send(vers[0], 1, &message.Prepare{Query: q})
+	if f, _ := cls[0].Next(3 * time.Second); f == nil {
+		panic("c18: prepare")
+	}
+	ops := 0
+	for round := 0; round < ctx.Scale(12, 80); round++ {
+		be.Forget(1)
+		be.Forget(2)
+		var wg sync.WaitGroup
+		for i, cl := range cls {
+			wg.Add(1)
+			go func(i int, cl *px.Client) {
+				defer wg.Done()
+				const burst = 6
+				for st := int16(1); st <= burst; st++ {
+					_ = cl.Send(vers[i], st, &message.Execute{QueryId: md5Of(q), ResultMetadataId: md5Of(q), Options: &message.QueryOptions{PositionalValues: []*primitive.Value{primitive.NewValue([]byte("tok:c18f"))}}})
+				}
+				for k := 0; k < burst; k++ {
+					if f, _ := cl.Next(3 * time.Second); f == nil {
+						return
+					}
+				}
+			}(i, cl)
+		}
+		wg.Wait()
+		ops += len(cls) * 6
+	}
+	return ops
+}
+
 func genC18(ctx *Ctx) {
 	if !raceEnabled {
 		panic("C18 must be run with the race-detector build of the harness (vh-race)")
@@ -345,7 +411,8 @@ func genC18(ctx *Ctx) {
 	families := []struct {
 		name string
 		run  func(*Ctx, *hv.Rng) int
-	}{{"sessions-use-prepare-execute", c18Sessions}, {"streams-retries-drops", c18Streams}, {"events-register-leave", c18Events}, {"topology-stops-restarts", c18Topology}, {"load-balancer-plans-against-membership-events", c18Balancer}}
+	}{{"sessions-use-prepare-execute", c18Sessions}, {"streams-retries-drops", c18Streams}, {"events-register-leave", c18Events}, {"topology-stops-restarts", c18Topology}, {"load-balancer-plans-against-membership-events", c18Balancer},
+		{"one-statement-re-prepared-on-connections-of-every-protocol-version-at-once", c18CrossVersion}}
 	seenBefore := map[string]bool{}
 	readReports := func() [][2]string {
 		var text strings.Builder
